@@ -73,6 +73,11 @@ void holdout_validation::init(unsigned run)
     std::iter_swap(curr, rand);
   }
 
+  // The validation set is empty and could be without metadata: the examples
+  // it receives are described by the schema of the training set (a
+  // classifier built on the validation set needs `classes()`).
+  validation_.clone_schema(training_);
+
   const auto from(std::next(training_.begin(), skip));
   std::copy(from, training_.end(), std::back_inserter(validation_));
   training_.erase(from, training_.end());
